@@ -4,7 +4,7 @@ from ..norm import n, P, C, V, match
 from . import cmpmodel, common, simd
 
 ID = "C08"
-CONFIGS = {"quick": ["K0", "K2", "K13"], "thorough": ["K0", "K1", "K2", "K13", "K14a", "K14b", "K14c", "K17"]}
+CONFIGS = {"quick": ["K0", "K2", "K13", "K14b"], "thorough": ["K0", "K1", "K2", "K13", "K14a", "K14b", "K14c", "K17"]}
 META = {
     "explanation": (
         "Static analysis (MIR + constant evaluator).  For the Q-ratio and length parts the laws are decided on the "
